@@ -881,6 +881,13 @@ func (fx *FnExec) execInstr(in ssa.Instruction) {
 		if at, ok := x.Type().Underlying().(*types.Pointer).Elem().Underlying().(*types.Array); ok && v.P != nil && v.P.Kind == PArr && localArrayPrivate(x) {
 			fx.private = append(fx.private, privateObj{ref: v.P.Arr, heaps: []string{fx.W.elemHeapName(at.Elem())}, def: x})
 		}
+		// a local variable cell (a result kept across deferred calls, a variable whose address the
+		// compiler took for itself) that is only ever stored to and loaded from directly - never
+		// captured by a closure, passed or stored - is private too
+		if v.P != nil && v.P.Kind == PCell && v.P.Ref != "" && localCellPrivate(x) {
+			name, _ := fx.cellHeap(v.P.Elem)
+			fx.private = append(fx.private, privateObj{ref: v.P.Ref, heaps: []string{name}, def: x})
+		}
 	case *ssa.FieldAddr:
 		base := fx.val(x.X)
 		pt := x.X.Type().Underlying().(*types.Pointer).Elem()
@@ -1196,6 +1203,33 @@ func strictlyComparable(t types.Type, depth int) bool {
 		return strictlyComparable(u.Elem(), depth+1)
 	}
 	return types.Comparable(t)
+}
+
+// localCellPrivate: the variable's address is used only as the target of direct stores and loads.
+func localCellPrivate(al *ssa.Alloc) bool {
+	if al.Heap {
+		return false
+	}
+	refs := al.Referrers()
+	if refs == nil {
+		return false
+	}
+	for _, r := range *refs {
+		switch x := r.(type) {
+		case *ssa.DebugRef:
+		case *ssa.Store:
+			if x.Addr != ssa.Value(al) || x.Val == ssa.Value(al) {
+				return false
+			}
+		case *ssa.UnOp:
+			if x.Op != token.MUL {
+				return false
+			}
+		default:
+			return false
+		}
+	}
+	return true
 }
 
 // localArrayPrivate: the array variable is used only through element addresses that are loaded from
